@@ -392,9 +392,13 @@ def rule_bits(R):
             return "will"
         if si["enum"] == "core::option::Option" and n[-1:] == ["auth"]:
             return "auth"
-        if (si["enum"] or "").endswith("Retain") and any(is_call(x, "retained_flag") for x in walk(s_)):
+        def reads_will_retain(t_):
+            # through the accessor, or the will's field itself (the bits may be assembled by a method of the will)
+            return any(is_call(x, "retained_flag") or (x[0] == "field" and x[2] in ("retained", "retain") and (x[3] or "").endswith("Will"))
+                       for x in walk(t_) if isinstance(x, tuple))
+        if (si["enum"] or "").endswith("Retain") and reads_will_retain(s_):
             return "retain-enum"
-        if is_call(s_, "PartialEq::eq", "eq") and any(is_call(x, "retained_flag") for x in walk(s_)) \
+        if is_call(s_, "PartialEq::eq", "eq") and reads_will_retain(s_) \
                 and any(x[0] == "agg" and x[3] in ("Retained", "NotRetained") for x in walk(s_)):
             return "retain-eq:" + [x[3] for x in walk(s_) if x[0] == "agg" and x[3] in ("Retained", "NotRetained")][0]
         return None
@@ -427,7 +431,8 @@ def rule_bits(R):
         v = _paths.value_on_path(cs, p_[:-1] + [stop_bb], fl)
         vs = valueset.evaluate(f, v) if v is not None else None
         rows.append((conds, vs, v))
-    qos_src = any(any(is_call(y, "qos_level") for y in walk(v)) for (c_, vs, v) in rows if v is not None and c_.get("will"))
+    qos_src = any(any(is_call(y, "qos_level") or (isinstance(y, tuple) and y[0] == "field" and y[2] == "qos" and (y[3] or "").endswith("Will"))
+                      for y in walk(v)) for (c_, vs, v) in rows if v is not None and c_.get("will"))
 
     def check(desc, pred):
         bad = None
